@@ -88,8 +88,12 @@ def _ring(n, out):
 # big enough for the 'auto' presets to take their hyper-optimizer branch
 QR14 = _ring(14, ())
 QR15 = _ring(15, (0, 7))
+# the network of A with the big dimension on 'b' resp. 'c'; the size dicts
+# are written with equal value sequences (2, 100, 3, 2) but different keys
+QA4 = (QA[0], QA[1], {"a": 2, "b": 100, "c": 3, "d": 2})
+QA5 = (QA[0], QA[1], {"a": 2, "c": 100, "b": 3, "d": 2})
 QS = {"A": QA, "B": QB, "C": QC, "A2": QA2, "A3": QA3, "R14": QR14,
-      "R15": QR15}
+      "R15": QR15, "A4": QA4, "A5": QA5}
 
 HK = dict(methods=["greedy"], max_repeats=1, optlib="random", parallel=False)
 
@@ -450,6 +454,52 @@ def work_seq(k, tier, seed, res):
                             f"sequence:{kind}:{cls}",
                             {"optimizer": kind, "sequence": seq,
                              "entry": entry}, bad[:3], max_per_unit=2)
+        if kind in ("preset:greedy", "preset:optimal", "preset:auto",
+                    "preset:auto-hq"):
+            # the presets through the interface with its DEFAULT caching:
+            # for these deterministic finders the answer must be the one a
+            # history-free call gives (a path can be structurally valid for
+            # the query and still be another query's path)
+            opt = kind.split(":")[1]
+            iface = importlib.import_module("cotengra.interface")
+            fresh = {}
+            for qn in ("A", "A4", "A5", "B"):
+                fresh[qn] = tuple(map(tuple, ctg.array_contract_path(
+                    *QS[qn], optimize=opt, cache=False)))
+            for L in (1, 2, 3):
+                for seq in itertools.product(("A4", "A5", "A", "B"),
+                                             repeat=L):
+                    for canon in (True, False):
+                        iface._PATH_CACHE.clear()
+                        iface._CONTRACT_EXPR_CACHE.clear()
+                        res.evals += 1
+                        res.transitions += L
+                        res.key((kind, seq, "cached", canon))
+                        bad = []
+                        for step, qn in enumerate(seq):
+                            q = QS[qn]
+                            lab = f"interface-path-cached:step{step}:{qn}"
+                            try:
+                                path = ctg.array_contract_path(
+                                    *q, optimize=opt, canonicalize=canon)
+                                bad += path_problems(path, q, lab)
+                                if tuple(map(tuple, path)) != fresh[qn]:
+                                    bad.append((
+                                        lab + ":path-of-another-query",
+                                        list(map(list, path)),
+                                        list(map(list, fresh[qn]))))
+                            except Exception as e:
+                                bad.append((lab + ":raises:" +
+                                            type(e).__name__, repr(e)[:200]))
+                        res.states += 1
+                        if bad:
+                            cls = bad[0][0].split(":", 3)[-1]
+                            res.violation(
+                                f"sequence:{kind}:cached:{cls}",
+                                {"optimizer": kind, "sequence": seq,
+                                 "entry": "interface-path-cached",
+                                 "canonicalize": canon}, bad[:3],
+                                max_per_unit=2)
         res.sample({"optimizer": kind, "sequences": 155,
                     "entries": ["search", "call", "interface-tree",
                                 "interface-path"]}, cap=1)
